@@ -164,7 +164,7 @@ uint8_t hll_union_alloc<A>::get_lg_config_k() const {
 
 template<typename A>
 void hll_union_alloc<A>::reset() {
-  gadget_.reset();
+  gadget_ = hll_sketch_alloc<A>(lg_max_k_, target_hll_type::HLL_8, false, gadget_.sketch_impl->getAllocator());
 }
 
 template<typename A>
